@@ -255,6 +255,44 @@ func c11ExitMatrix() []genCase {
 	return out
 }
 
+// c11Shapes: program shapes the template generator never produces: no pattern-action rule at all
+// (the main loop still reads the input: END sees the last record), very many rules (a range
+// pattern far down the list), the same operand named twice in a row.
+func c11Shapes() []genCase {
+	var out []genCase
+	files := map[string]string{"in0": "a:b:c\nd:e\n", "in1": "x y z\n"}
+	add := func(src string, args []string, vars []string, stdin string) {
+		cs := genCase{Family: "shapes", Src: src}
+		cs.Env.Files, cs.Env.Args, cs.Env.Vars, cs.Env.Stdin = files, args, vars, stdin
+		out = append(out, cs)
+	}
+	end := `END { print "E", NR, FNR, FILENAME, NF, "[" $0 "]", $1, $2, $NF }`
+	for _, pre := range []string{"", `BEGIN { FS = ":" }`, `BEGIN { getline; print "B", NF, $1; n = NF }`, `BEGIN { FS = ":"; getline; $2 = "w"; print "B", NF, $0 }`, `BEGIN { getline line; FS = ":" }`} {
+		for _, args := range [][]string{nil, {"in0"}, {"FS=:", "in0"}, {"in0", "in1"}, {"in0", "FS= ", "in1"}, {"in1", "FS=:", "in0"}} {
+			for _, vars := range [][]string{nil, {"FS", ":"}} {
+				add(pre+"\n"+end+"\n", args, vars, "s:t u\nv:w:x y\n")
+				add(pre+"\n"+end+"\nEND { $0 = $0; print NF; NF = 1; print }\n", args, vars, "s:t u\n")
+			}
+		}
+	}
+	// the same operand twice, thrice; and with an assignment or an empty operand in between
+	twopass := `NR == FNR { seen[$1]++; next } { print "P2", FNR, NR, $1, seen[$1] } END { print "E", NR, FNR, FILENAME }`
+	for _, args := range [][]string{{"in0", "in0"}, {"in0", "in0", "in0"}, {"in0", "v=1", "in0"}, {"in0", "", "in0"}, {"in1", "in0", "in0", "in1"}, {"-", "-"}, {"in0", "in1", "in0"}} {
+		add(twopass+"\n", args, nil, "st 1\nst 2\n")
+		add(`FNR == 1 { print "first of", FILENAME, NR } END { print NR, FNR }`+"\n", args, nil, "st 1\nst 2\n")
+	}
+	// a range pattern, a next, an exit and a getline far down a long rule list
+	for _, nrules := range []int{0, 10, 62, 63, 64, 65, 100, 130} {
+		var sb strings.Builder
+		for i := 0; i < nrules; i++ {
+			fmt.Fprintf(&sb, "NR == %d { c%d++ }\n", 1000+i, i)
+		}
+		sb.WriteString("/b/, /d/ { print \"R\", NR, $0 }\n$1 == \"c\", $1 == \"c\" { print \"S\", NR }\nNR == 2, NR == 4 { r++ }\nEND { print \"E\", NR, r }\n")
+		add(sb.String(), nil, nil, "a\nb\nc\nd\ne\nb\n")
+	}
+	return out
+}
+
 func init() {
 	n := func(t core.Tier, q, th int) int {
 		if t == core.Thorough {
@@ -276,7 +314,7 @@ func init() {
 		},
 		NBatches: func(t core.Tier) int { return n(t, 16, 64) },
 		Floors: func(t core.Tier) map[string]int {
-			return map[string]int{"evaluations": n(t, 9000, 150000), "distinct_nontrivial": n(t, 7500, 100000), "ref_agreed": n(t, 7500, 100000), "long_cases": 22, "exit_matrix_cases": 800}
+			return map[string]int{"evaluations": n(t, 9000, 150000), "distinct_nontrivial": n(t, 7500, 100000), "ref_agreed": n(t, 7500, 100000), "long_cases": 22, "exit_matrix_cases": 800, "shape_cases": 140}
 		},
 		Run: func(c *core.Ctx) {
 			if err := diffrun.Prepare(c.WorkDir()); err != nil {
@@ -296,6 +334,12 @@ func init() {
 				if c.Mine(i) {
 					c01RunCase(c, c11Long(i), "C11")
 					c.Count("long_cases", 1)
+				}
+			}
+			for i, cs := range c11Shapes() {
+				if c.Mine(i) {
+					c01RunCase(c, cs, "C11")
+					c.Count("shape_cases", 1)
 				}
 			}
 			for i, cs := range c11ExitMatrix() {
